@@ -29,6 +29,8 @@
 /* arg1 first; arg2 at most once (short cut allowed) */
 #define ENS_EVAL_SHORTCUT PROP(C05) __CPROVER_ensures((g_eval_n <= 2) && (g_eval_n >= 1 ==> g_eval_node[0] == this->arg1) && (g_eval_n == 2 ==> g_eval_node[1] == this->arg2) && (OK ==> g_eval_n >= 1))
 #define ENS_EVAL_ONE PROP(C05) __CPROVER_ensures((g_eval_n <= 1) && (g_eval_n == 1 ==> g_eval_node[0] == this->arg1) && (OK ==> g_eval_n == 1))
+/* builtin with one argument: evaluated exactly once */
+#define ENS_EVAL_ONE_ARG PROP(C05) __CPROVER_ensures((g_eval_n <= 1) && (g_eval_n == 1 ==> g_eval_node[0] == g_args[0]) && (OK ==> g_eval_n == 1))
 /* C05: operands owned by a variable / constant / container (LVALUE) are left bit-for-bit unchanged,
  * on normal and on exceptional return */
 #define ENS_FRAME1 PROP(C05) __CPROVER_ensures((g_eval_n >= 1 && V_LVALUE(A1)) ==> (V_SAME(O1, A1) && (FRAME_IMAG(O1, A1, 0)) && (FRAME_STR(O1, A1, 0))))
